@@ -186,6 +186,7 @@ fn replay_file(path: &str) {
     install_panic_hook();
     refcodec::AVOID_ZERO_WIDTH_DEFAULT.store(open_ids_for(id).iter().any(|o| o == "KF-codec-array-of-null"), std::sync::atomic::Ordering::Relaxed);
     let variant = j["variant"].as_str().unwrap_or("").to_string();
+    let _ = driver::REPLAY_CTX.set((id.to_string(), path.to_string()));
     vcheck_watchdog();
     let r = guarded(|| (meta.replay)(&variant, &j["case"]));
     match r {
@@ -554,6 +555,8 @@ fn crash_signature(stderr_tail: &str, status: &std::process::ExitStatus) -> Stri
         "crash:stack-overflow".into()
     } else if stderr_tail.contains("memory allocation of") || stderr_tail.contains("ALLOC-BUDGET") {
         "crash:alloc".into()
+    } else if stderr_tail.contains("BLOCKED-WATCHDOG") {
+        "thread-blocked".into()
     } else if stderr_tail.contains("SPIN-WATCHDOG") {
         "cpu-spin".into()
     } else if stderr_tail.contains("WATCHDOG") {
